@@ -22,7 +22,7 @@ var pureFuncs = map[string]any{
 	"strings.Contains": strings.Contains, "strings.ContainsRune": strings.ContainsRune, "strings.ContainsAny": strings.ContainsAny, "strings.Index": strings.Index,
 	"strings.IndexByte": strings.IndexByte, "strings.IndexRune": strings.IndexRune, "strings.LastIndex": strings.LastIndex, "strings.Repeat": strings.Repeat,
 	"strings.Join": strings.Join, "strings.Split": strings.Split, "strings.Fields": strings.Fields, "strings.Cut": strings.Cut, "strings.EqualFold": strings.EqualFold,
-	"strings.Count": strings.Count, "strings.Title": strings.ToTitle,
+	"strings.Count": strings.Count, "strings.Compare": strings.Compare, "strings.Title": strings.ToTitle,
 	"strconv.Itoa": strconv.Itoa, "strconv.QuoteRune": strconv.QuoteRune, "strconv.QuoteToASCII": strconv.QuoteToASCII, "strconv.Unquote": strconv.Unquote,
 	"strconv.ParseInt": strconv.ParseInt, "strconv.ParseUint": strconv.ParseUint, "strconv.FormatInt": strconv.FormatInt, "strconv.Atoi": strconv.Atoi,
 	"strconv.QuoteRuneToASCII": strconv.QuoteRuneToASCII, "strconv.FormatBool": strconv.FormatBool,
